@@ -52,6 +52,16 @@ def scalar(p):
     return p[0] if getattr(p, "shape", ()) else p
 
 
+def _imod(p, d):
+    p %= d
+    return p
+
+
+def _rem_out(p, d):
+    import numpy as _np
+    return _np.remainder(p, d, out=p)
+
+
 def bounded(pb, interp, rng, tier):
     Phase = pb.Phase
     ev, fails, samples, distinct = 0, [], [], set()
@@ -77,6 +87,9 @@ def bounded(pb, interp, rng, tier):
             fail(fn, f"{what}.imaginary-flag", inst, f"{r.imaginary}")
             return
         i, f = parts(r)
+        if not (math.isfinite(float(i)) and math.isfinite(float(f))):
+            fail(fn, f"{what}.not-finite", inst, f"int={i!r} frac={f!r}")
+            return
         if not float(i).is_integer() or abs(f) > 0.5:
             fail(fn, f"{what}.not-normalised", inst, f"int={i!r} frac={f!r}")
         got = fr(i) + fr(f)
@@ -156,6 +169,52 @@ def bounded(pb, interp, rng, tier):
                 fail("Phase.__array_ufunc__", "divmod.identity", f"divmod({parts(p)}, {d})", f"fd={float(fdv)} rem={float(er)} want fd={fd_want} rem={float(rem_want)}")
             if exact(rem2) != er or Fraction(float(getattr(fd2, "value", fd2))) != fdv:
                 fail("Phase.__array_ufunc__", "divmod.consistency", f"{parts(p)} // and % {d}", "operators disagree with np.divmod")
+    # ---- the same with a Phase as divisor, a Quantity as dividend, and in place
+    for what, thunk, want_fd, want_rem in (
+            ("floordiv-by-phase", lambda: Phase(10, .25) // Phase(3), 3, None),
+            ("remainder-by-phase", lambda: Phase(10, .25) % Phase(3), None, Fraction(5, 4)),
+            ("divmod-by-phase", lambda: divmod(Phase(10, .25), Phase(3)), 3, Fraction(5, 4)),
+            ("quantity-floordiv-phase", lambda: (7.5 * u.cycle) // Phase(3), 2, None),
+            ("quantity-remainder-phase", lambda: (7.5 * u.cycle) % Phase(3), None, Fraction(3, 2))):
+        ev += 1
+        distinct.add(("divmod-kinds", what))
+        try:
+            r = thunk()
+        except (Exception, RecursionError) as e:
+            fail("Phase.__array_ufunc__", f"divmod-kinds.{what}.raises", what, type(e).__name__)
+            continue
+        fdr, remr = (r if isinstance(r, tuple) else ((r, None) if want_rem is None else (None, r)))
+        if want_fd is not None and Fraction(float(getattr(fdr, "value", fdr))) != want_fd:
+            fail("Phase.__array_ufunc__", f"divmod-kinds.{what}.value", what, repr(fdr))
+        if want_rem is not None:
+            got = exact(remr) if isinstance(remr, Phase) else Fraction(float(remr.to_value(u.cycle)))
+            if abs(got - want_rem) > 2 * EPS:
+                fail("Phase.__array_ufunc__", f"divmod-kinds.{what}.value", what, repr(remr))
+    for what, thunk in (("imod", lambda: _imod(Phase(10, .25), 3 * u.cycle)), ("remainder-out", lambda: _rem_out(Phase(10, .25), 3 * u.cycle))):
+        ev += 1
+        distinct.add(("divmod-inplace", what))
+        try:
+            r = thunk()
+            if not isinstance(r, Phase) or abs(exact(r) - Fraction(5, 4)) > 2 * EPS:
+                fail("Phase.__array_ufunc__", f"divmod-inplace.{what}.value", "Phase(10, .25) %= 3 cycle", repr(r))
+        except Exception as e:
+            fail("Phase.__array_ufunc__", f"divmod-inplace.{what}.raises", what, type(e).__name__)
+    # ---- two-number construction from narrow float types
+    for what, a, b_, want in (("float32-scalars", np.float32(0.1), np.float32(0.2), fr(float(np.float32(0.1))) + fr(float(np.float32(0.2)))),
+                              ("float32-arrays", np.array([1.25], np.float32), np.array([1e-8], np.float32), fr(1.25) + fr(float(np.float32(1e-8)))),
+                              ("float32-carry", np.float32(16777216), np.float32(1), Fraction(16777217))):
+        ev += 1
+        distinct.add(("narrow", what))
+        try:
+            q = Phase(a, b_)
+            i_, f_ = parts(q) if np.ndim(a) == 0 else (float(q["int"].value[0]), float(q["frac"].value[0]))
+            if abs(fr(i_) + fr(f_) - want) > EPS or abs(f_) > 0.5:
+                fail("Phase.from_angles", f"construct-narrow.{what}", f"Phase({a!r}, {b_!r})", f"({i_}, {f_}) for exact {float(want)!r}")
+        except Exception as e:
+            fail("Phase.from_angles", f"construct-narrow.{what}.raises", what, f"{type(e).__name__}: {e}")
+    for what, thunk, want in (("times-float16", lambda: Phase(10, .25) * np.float16(2), Fraction(41, 2)), ("rtimes-float16", lambda: np.float16(2) * Phase(10, .25), Fraction(41, 2)),
+                              ("div-float16", lambda: Phase(10, .25) / np.float16(2), Fraction(41, 8))):
+        check("Phase.__array_ufunc__", f"narrow-factor.{what}", what, thunk, want, tol=2 * EPS)
     # ---- imaginary phases: i*i = -1
     for c, f in [(3.0, 0.25), (-7.0, 0.5), (2.0 ** 40, -0.125)]:
         want = fr(c) + fr(f)
